@@ -243,6 +243,37 @@ def convertM (m : Nat) (b : Bytes) : UOut (List (UF m)) :=
 /-- ConvertUnknownFields -/
 def convertUF (b : Bytes) : UOut (List (UF Facts.ufMaxRecursionDepth)) := convertM Facts.ufMaxRecursionDepth b
 
+/-! ## GetUnknownFields (the reflect wrapper) -/
+
+/-- what `reflect.ValueOf(v)` looks like to GetUnknownFields -/
+inductive GetArg where
+  | structPtr (field : Bytes)     -- non-nil pointer to a struct with `_unknownFields []byte`
+  | structVal (field : Bytes)     -- such a struct by value
+  | notStruct                     -- nil, nil pointer, int, … : Kind() != Struct after one Elem()
+  | noField                       -- a struct (or pointer to one) without a field of that name
+  | wrongType                     -- `_unknownFields` exists but is not a byte slice: reflect.Value.Bytes panics
+
+inductive GetErr where
+  | notStruct                     -- "%T is not a struct type"
+  | noField                       -- "%T has no field named '_unknownFields'"
+  | conv (e : UErr)               -- the error of ConvertUnknownFields, returned as is
+deriving Repr, DecidableEq
+
+/-- the error of ConvertUnknownFields passes through unchanged -/
+def liftConv {α : Type} : UOut α → Out GetErr α
+  | .ok a => .ok a
+  | .err e => .err (.conv e)
+  | .panic s => .panic s
+  | .oob => .oob
+
+/-- GetUnknownFields(v) -/
+def getUF : GetArg → Out GetErr (List (UF Facts.ufMaxRecursionDepth))
+  | .structPtr b => liftConv (convertUF b)
+  | .structVal b => liftConv (convertUF b)
+  | .notStruct => .err .notStruct
+  | .noField => .err .noField
+  | .wrongType => .panic "reflect"
+
 /-! ## unknownFieldLength -/
 
 /-- `for _, v := range vs { l, err := f(&v); length += l; … }` -/
